@@ -337,6 +337,9 @@ func (s Store) Lookup(ctx context.Context, runID string) (*workflow.Record, erro
 		}
 		c := cloneRec(&rr.versions[i])
 		out = &c
+		if w.inUserFn == 0 {
+			w.Mon.onLookupResult(&c)
+		}
 		return "(" + recStr(w, &c) + ")" + stale, nil
 	})
 	if err != nil {
